@@ -46,6 +46,10 @@ pub fn acosh_below_one(class: u8, kx: i32, m: u32) {
         }
     };
     let r = x.acosh();
+    if native() {
+        assert!(!spec_valid(r)); // the property itself, on the real code
+        return;
+    }
     #[allow(static_mut_refs)]
     unsafe {
         assert!(T_LN.n == 1);
